@@ -336,7 +336,7 @@ def run_scenario(scn):
         if not forms or any(abs(v - cst) <= 1e-9 * max(abs(v), abs(cst)) and v != cst for v in forms for cst in costs_sorted):
             skipped_q += 1
             continue
-        q.append({"dx": [rd(DQ[qi, t]) for t in range(n)], "rho": sorted(set(rk(v) for v in forms)), "res": qres[qi][0] + 1, "cl": qres[qi][1], "pos": qi})
+        q.append({"dx": [rd(DQ[qi, t]) for t in range(n)], "rho": [(-7777777 if (math.isnan(v) or math.isinf(v)) else rk(v)) for v in qrho[qi]], "res": qres[qi][0] + 1, "cl": qres[qi][1], "pos": qi})
     ev = []
     for kx, s in enumerate(epi):
         if s["p"] is False:
